@@ -141,7 +141,7 @@ def main():
                 broken.append(("proof", "Print Assumptions output", "expected %d blocks, got %d" % (len(printed), len(blocks))))
             for nm, blk in zip(printed, blocks):
                 bad = [a for a in blk if not C.axiom_ok(a)]
-                axioms_seen |= set(a for a in blk if not a.startswith(C.PRIMITIVE_PREFIXES))
+                axioms_seen |= set(a for a in blk if not C.is_primitive(a))
                 if bad:
                     broken.append(("proof", nm, "depends on axioms outside the allow-list: %s" % bad))
                 else:
